@@ -4,6 +4,8 @@
    code <old> <code|-> <has_aff>
    nifti <be> <ver> <hashdr> <sc> <qc> <srow12> <p0> <pix3> <quat3> <qoff3> <hdims> <shape>
          <c1> <c2> <A12> <tab> <detpos> <zooms3> <bcd3>
+   hist <be> <ver> <sc> <qc> <srow12> <p0> <pix3> <quat3> <qoff3> <hdims> <tab> <affs> <ops>
+        affs = A12|detpos|zooms3|bcd3;...   ops = q:code:idx,s:code:idx,... ('-' for None)
    analyze <hashdr> <pix3> <hdims> <shape> <c1> <c2> <A12> <tab> <zooms3>
    rblocks <be> <ver> <abhex> <pbhex>
    szaff <shape> <zooms q-list> <flip>
@@ -62,6 +64,32 @@ let handle op args = match op, args with
        ^ hex_of_bytes (affine_block (bool_of_string be) cw fw h2) ^ " "
        ^ hex_of_bytes (pixdim_block (bool_of_string be) fw h2) ^ " " ^ string_of_zlist h2.dims ^ " "
        ^ string_of_best b)
+  | "hist", [be; ver; sc; qc; sr; p0; px; qu; qo; hd; tab; affs; ops] ->
+    let (cw, fw) = widths ver in
+    let h0 = { sform_code = z_of_string sc; srow = zlist_of_string sr; qform_code = z_of_string qc;
+               pixdim0 = z_of_string p0; pixdim = zlist_of_string px; quat = zlist_of_string qu;
+               qoff = zlist_of_string qo; dims = zlist_of_string hd } in
+    let store = store_of ver tab in
+    let al = List.map (fun t -> match String.split_on_char '|' t with
+        | [a; dp; zs; bcd] -> (zlist_of_string a, { q_detpos = bool_of_string dp; q_zooms = zlist_of_string zs; q_bcd = zlist_of_string bcd })
+        | _ -> failwith "bad aff") (List.filter (fun t -> t <> "") (String.split_on_char ';' affs)) in
+    let same x y = List.length x = List.length y && List.for_all2 z_eq x y in
+    let qnum_of x = let rec go = function [] -> { q_detpos = true; q_zooms = []; q_bcd = [] }
+                                        | (a, n) :: r -> if same a x then n else go r in go al in
+    let step h t = match h with None -> None | Some h ->
+      (match String.split_on_char ':' t with
+       | [k; c; i] ->
+         let code = if c = "-" then None else Some (z_of_string c) in
+         let aff = if i = "-" then None else Some (fst (List.nth al (int_of_string i))) in
+         if k = "q" then set_qform xform_code_values store one_bits mone_bits qnum_of h aff code
+         else set_sform xform_code_values store h aff code
+       | _ -> failwith "bad op") in
+    (match List.fold_left step (Some h0) (List.filter (fun t -> t <> "") (String.split_on_char ',' ops)) with
+     | None -> "err key"
+     | Some h2 ->
+       "ok " ^ string_of_z h2.qform_code ^ " " ^ string_of_z h2.sform_code ^ " "
+       ^ hex_of_bytes (affine_block (bool_of_string be) cw fw h2) ^ " "
+       ^ hex_of_bytes (pixdim_block (bool_of_string be) fw h2) ^ " " ^ string_of_best (get_best_affine h2))
   | "analyze", [hashdr; px; hd; shape; c1; c2; a; tab; zs] ->
     let h = { sform_code = Z0; srow = []; qform_code = Z0; pixdim0 = Z0; pixdim = zlist_of_string px;
               quat = []; qoff = []; dims = zlist_of_string hd } in
